@@ -20,3 +20,27 @@ s = open(p).read()
 s = re.sub(r'<!-- BEGIN SEEDED TABLE -->.*?<!-- END SEEDED TABLE -->', lambda _m: '<!-- BEGIN SEEDED TABLE -->\n' + table + '\n<!-- END SEEDED TABLE -->', s, flags=re.S)
 open(p, 'w').write(s)
 print(len(rows) - 2, 'rows')
+
+# ---- the false-alarm side: neutral/RESULTS.json ----
+nres = json.load(open('neutral/RESULTS.json')) if os.path.exists('neutral/RESULTS.json') else {}
+nrows = ["| id | what was rewritten (one line) | files | suite still green | checks run: verdicts |", "|---|---|---|---|---|"]
+tot = {}
+for d in sorted(glob.glob('neutral/C*-*')):
+    nid = os.path.basename(d)
+    m = json.load(open(os.path.join(d, 'meta.json')))
+    summ = re.sub(r'\s+', ' ', m.get('summary', ''))[:200].replace('|', '/')
+    files = ', '.join(os.path.basename(f) for f in m.get('files_in_patch', m.get('files_changed', [])))
+    c = m.get('confirmed', {})
+    conf = 'yes' if c and 'passed' in c.get('test_suite_with_patch', '') and set(c.get('failed_tests', '').split()) <= {'tests/services/test_types.py::test_integration_with_listener_ipv6'} else ('?' if not c else 'NO')
+    checks = nres.get(nid, {}).get('checks', {})
+    for v in checks.values():
+        tot[v['verdict']] = tot.get(v['verdict'], 0) + 1
+    bad = [f"{p}: {v['verdict']}" for p, v in sorted(checks.items()) if v['verdict'] != 'clean']
+    verd = f"{len(checks)} run, {sum(1 for v in checks.values() if v['verdict'] == 'clean')} clean" + ('; ' + ', '.join(bad) if bad else '')
+    nrows.append(f"| {nid} | {summ} | {files} | {conf} | {verd} |")
+summary = (f"Current numbers (`neutral/RESULTS.json`, {len(nres)} rewrites, {sum(tot.values())} check runs): "
+           + ', '.join(f"{v} {k}" for k, v in sorted(tot.items())) + ".\n\n" + '\n'.join(nrows))
+s = open(p).read()
+s = re.sub(r'<!-- BEGIN NEUTRAL SUMMARY -->.*?<!-- END NEUTRAL SUMMARY -->', lambda _m: '<!-- BEGIN NEUTRAL SUMMARY -->\n' + summary + '\n<!-- END NEUTRAL SUMMARY -->', s, flags=re.S)
+open(p, 'w').write(s)
+print(len(nrows) - 2, 'neutral rows', tot)
